@@ -29,16 +29,15 @@ LEVEL_TEXT = ("Lean theorems (every width, every value, no bound): the model of 
               "OverflowError escape; a total classification valid(dtype, length, value) (allowed length per dtype, integer range, digit strings, bytes/bits size, bool "
               "literal, float 16/32/64, variable-length codes without a length) such that Dtype.build, token strings, pack, name-with-length property assignment and Array "
               "element assignment, each transcribed with the validation it really performs, succeed with exactly encode(dtype, length, value) when valid and raise ValueError "
-              "otherwise; every success has exactly length*multiplier bits; keyword / name-with-length construction and plain property assignment are characterised exactly "
-              "(they agree with the classification outside the named deviation regions, with decided witnesses inside); windows over bytes / bitarray / BytesIO / file sources "
+              "otherwise (constructor keyword and name-with-length keyword included); every success has exactly length*multiplier bits; plain property assignment agrees with "
+              "the classification at the object's own length outside the named deviation region (decided witnesses inside); windows over bytes / bitarray / BytesIO / file sources "
               "succeed iff 0 <= offset, 0 <= length, offset+length <= n on the regions where the code is right (including the BytesIO byte/bit arithmetic), with decided "
               "witnesses of the deviations; a rejected property or Array element assignment leaves the object unchanged and a successful Array assignment changes only that item. "
               "Correspondence: every dtype and alias x lengths -1..130, 256, 1000 x values just inside/outside every limit x eight creation routes x four classes, "
               "malformed digit strings and numerals, stated-length/value mismatches, property and Array element assignment, windows over 0-9 byte sources with "
               "offset, length in [-2, n+9] or None for bytes=, bitarray=, BytesIO, file by name and by handle.")
-LEVEL_NOTE = ("PARTIAL where the pinned tree deviates (5 known findings, each with a decided Lean witness and a proposed fix): keyword/name-with-length creation ignores the stated "
-              "length for hex/oct/bin/bits/bytesN; plain property assignment of an endian integer on a non-whole-byte object; negative offset/length and offset beyond the data "
-              "for bytes/bitarray/BytesIO/file windows; an empty file. Trusted: Lean kernel (+propext, Classical.choice, Quot.sound); bitarray int2ba/hex2ba/base2ba/frombytes/"
+LEVEL_NOTE = ("PARTIAL where the pinned tree deviates (3 known findings, each with a decided Lean witness and a proposed fix): plain property assignment of an endian integer "
+              "on a non-whole-byte object; negative offset/length for bytes/bitarray/BytesIO/file windows; offset beyond the data for bytes/BytesIO (no length) and files (length 0). Trusted: Lean kernel (+propext, Classical.choice, Quot.sound); bitarray int2ba/hex2ba/base2ba/frombytes/"
               "tobytes, Python slicing, divmod, struct and mmap modelled by their documented meaning; int()/float() string parsing, the token regexes and the float codecs are not "
               "modelled (numbers cross the wire as numbers, 8/6/4-bit float values as their codes); dtype table transcribed by hand and compared with the live register on every "
               "run (table lines); transcription of the Python tied by the differential run only.")
@@ -588,24 +587,6 @@ def oracle(line: str, out: str, extra: dict):
 
 
 # ------------------------------------------------------------------------------------------------ known-deviation regions
-def _allowed(m: str, ln: int) -> bool:
-    if m == "hex":
-        return ln % 4 == 0
-    if m == "oct":
-        return ln % 3 == 0
-    return True
-
-
-def r_kw_len_unchecked(line: str) -> bool:
-    f = line.split(SEP)
-    if f[1] != "enc" or f[2] not in ("kw", "kwn") or f[4] not in ("hex", "oct", "bin", "bits", "bytes"):
-        return False
-    ln = optlen(f[6])
-    if ln is None or optlen(f[8]) is not None or not _allowed(f[4], ln) or (f[2] == "kwn" and ln < 0):
-        return False
-    return ref(f[4], None, f[7])[0] and not ref(f[4], ln, f[7])[0]
-
-
 def r_prop_endian(line: str) -> bool:
     f = line.split(SEP)
     return f[1] == "asg" and f[3] in ENDIAN and optlen(f[5]) is None and len(unwire(f[6])) % 8 != 0
@@ -627,17 +608,10 @@ def r_win_beyond(line: str) -> bool:
     return off is not None and off > len(data_bits(f[4]))
 
 
-def r_file_empty(line: str) -> bool:
-    f = line.split(SEP)
-    return f[1] == "win" and f[2] in ("fname", "fhandle") and len(data_bits(f[4])) == 0
-
-
 REGIONS = {
-    "kw_len_unchecked": r_kw_len_unchecked,
     "prop_endian_not_whole_bytes": r_prop_endian,
     "window_negative": r_win_negative,
     "window_offset_beyond": r_win_beyond,
-    "file_empty": r_file_empty,
 }
 
 
